@@ -151,6 +151,7 @@ pub struct World {
     pub read_idx: usize,
     pub default_read: ReadStep,
     pub scribble: bool,
+    pub vectored: bool,
     pub read_calls: usize,
     pub last_read: Option<RRet>,
     /// Read error injected and not yet seen coming out of the library.
@@ -205,6 +206,7 @@ impl World {
             read_idx: 0,
             default_read: sc.default_read,
             scribble: sc.scribble,
+            vectored: sc.vectored,
             read_calls: 0,
             last_read: None,
             pending_read_err: None,
@@ -470,6 +472,28 @@ impl io::Read for SimReader {
         let mut w = lock(&self.0);
         w.do_read(buf)
     }
+    fn read_vectored(&mut self, bufs: &mut [io::IoSliceMut<'_>]) -> io::Result<usize> {
+        crate::sched::seam_yield(crate::sched::SEAM_READ);
+        let mut w = lock(&self.0);
+        if !w.vectored {
+            // std's default: the first non-empty slice only
+            return match bufs.iter_mut().find(|b| !b.is_empty()) {
+                Some(b) => w.do_read(b),
+                None => w.do_read(&mut []),
+            };
+        }
+        // one logical read whose buffer is the concatenation of the slices
+        let total: usize = bufs.iter().map(|b| b.len()).sum();
+        let mut tmp = vec![0u8; total];
+        let r = w.do_read(&mut tmp);
+        let mut off = 0;
+        for b in bufs.iter_mut() {
+            let n = b.len();
+            b.copy_from_slice(&tmp[off..off + n]);
+            off += n;
+        }
+        r
+    }
 }
 
 pub struct SimWriter(pub Shared);
@@ -479,6 +503,18 @@ impl io::Write for SimWriter {
         crate::sched::seam_yield(crate::sched::SEAM_WRITE);
         let mut w = lock(&self.0);
         w.do_write(buf)
+    }
+    fn write_vectored(&mut self, bufs: &[io::IoSlice<'_>]) -> io::Result<usize> {
+        crate::sched::seam_yield(crate::sched::SEAM_WRITE);
+        let mut w = lock(&self.0);
+        if !w.vectored {
+            return match bufs.iter().find(|b| !b.is_empty()) {
+                Some(b) => w.do_write(b),
+                None => w.do_write(&[]),
+            };
+        }
+        let tmp: Vec<u8> = bufs.iter().flat_map(|b| b.iter().cloned()).collect();
+        w.do_write(&tmp)
     }
     fn flush(&mut self) -> io::Result<()> {
         let mut w = lock(&self.0);
